@@ -6,8 +6,12 @@ DumpStep ==
        /\ LET a == CHOOSE x \in Args : calls'[x] # calls[x] IN
           PrintT(<<"CASE", ToJson([kind |-> "create", doc |-> DocOf(a), keys |-> KeysOf(a), call |-> calls'[a],
                                    resolves |-> TRUE, probe |-> NoProbe])>>)
-    \/ /\ calls' = calls
+    \/ /\ processed' # processed
+       /\ PrintT(<<"CASE", ToJson([kind |-> "process", doc |-> processed'.doc, keys |-> 1, call |-> 0,
+                                   resolves |-> Resolves(ReturnedDID(processed')), probe |-> NoProbe, shape |-> processed'.shape,
+                                   same |-> SameRequest(processed'.shape)])>>)
+    \/ /\ calls' = calls /\ processed' = processed
        /\ PrintT(<<"CASE", ToJson([kind |-> "resolve", doc |-> probe'.doc, keys |-> 1, call |-> 0,
                                    resolves |-> Resolves(probe'), probe |-> probe'])>>)
-View == <<calls, probe>>
+View == <<calls, probe, processed>>
 =============================================================================
